@@ -418,20 +418,20 @@ def gen_wire(rng, kind=None):
 def generate(rng, tier):
     quick = tier != 'thorough'
     cases = []
-    n = 130 if quick else 5000
+    n = 130 if quick else 2500
     for i in range(n):
         a = gen_req_args(rng, big=(i % (60 if quick else 200) == 7))
         cases.append(dict(kind='req', args=a, wf=True))
     for i in range(n):
         a = gen_resp_args(rng, big=(i % (60 if quick else 200) == 9))
         cases.append(dict(kind='resp', args=a, wf=True))
-    for i in range(50 if quick else 2000):
+    for i in range(50 if quick else 1000):
         if rng.random() < 0.5:
             cases.append(dict(kind='req', args=damage_args(rng, gen_req_args(rng), 'req'), wf=False))
         else:
             cases.append(dict(kind='resp', args=damage_args(rng, gen_resp_args(rng), 'resp'), wf=False))
     # rebuild of parsed messages
-    for i in range(150 if quick else 6000):
+    for i in range(150 if quick else 3000):
         d = gen_wire(rng)
         opts = dict(disable=[], for_proxy=False, host=None)
         r = rng.random()
@@ -445,14 +445,14 @@ def generate(rng, tier):
         cases.append(dict(kind='rebuild', ptype=d['ptype'], raw=d['raw'], opts=opts, wf=(opts == dict(disable=[], for_proxy=False, host=None)),
                           fp=bool(opts['for_proxy'] and d.get('host') and d.get('port')),
                           meta=dict(framing=d['framing'], body=d['body'], nheaders=len(d['headers']))))
-    for i in range(60 if quick else 2500):
+    for i in range(60 if quick else 1200):
         d = H.gen_message(rng)
         raw = mutate(rng, d['raw'])
         if rng.random() < 0.3: raw = mutate(rng, raw)
         if not raw: continue
         cases.append(dict(kind='rebuild', ptype=d['ptype'], raw=raw, opts=dict(disable=[], for_proxy=rng.random() < 0.2, host=None), wf=False, meta=None))
     # update_body
-    for i in range(70 if quick else 2500):
+    for i in range(70 if quick else 1200):
         d = gen_wire(rng)
         if d['framing'] == 'none' and rng.random() < 0.7:
             continue
@@ -464,7 +464,7 @@ def generate(rng, tier):
         cases.append(dict(kind='update', ptype=d['ptype'], raw=raw, new_body=nb, ctype=rng.choice([b'application/json', b'text/plain']),
                           meta=dict(framing=d['framing'], ce=ce)))
     # chunked streams for the reference decoder
-    for i in range(80 if quick else 3000):
+    for i in range(80 if quick else 1500):
         body = rng.choice([b'', H.rbody(rng, rng.choice([1, 3, 17, 80]))])
         wire, _ = H.chunk_layout(rng, body)
         tail = rng.choice([b'', b'', b'xyz', b'\r\n', b'0\r\n\r\n', b'GET / HTTP/1.1\r\n\r\n'])
@@ -472,7 +472,7 @@ def generate(rng, tier):
         if rng.random() < 0.6:
             cases.append(dict(kind='dechunk', raw=mutate(rng, wire + tail), meta=None))
     # to_chunks
-    for i in range(40 if quick else 800):
+    for i in range(40 if quick else 400):
         body = rng.choice([b'', H.rbody(rng, rng.randint(1, 70))])
         cases.append(dict(kind='tochunks', body=body, k=rng.choice([1, 2, 3, 7, 15, 16, 17, 64, 255, 256, 4096, 131072])))
     cases.append(dict(kind='tochunks', body=b'abc', k=0))
